@@ -446,6 +446,8 @@ func runPath(it *Interp, job *JobSpec, item workItem, sched *scheduler, res *Job
 	}
 	it.evalMemo = map[*Term]uint64{}
 	it.notes = map[string]Value{}
+	it.held, it.watch = map[*Value]int{}, map[*Value]watchInfo{}
+	it.inOnce, it.onceDone, it.accessSeen = map[*Value]int{}, map[*Value]bool{}, map[string]bool{}
 	it.cborStore = map[*ByteObj]Value{}
 	it.opaqueLens = map[int32]bool{}
 	it.axiomSeen = map[*Term]bool{}
